@@ -187,7 +187,7 @@ var specialPieces = []string{`"`, `"`, `\`, `\`, `(`, `)`, `@`, `@`, `.`, "\n", 
 	`)"`, `("`, `@.`, `@)`, ` `, `&`, `"" `}
 var namePieces = []string{"foo", "Foo", "FOO", "bar", "contact", "x1", "_", "_a", "9", "é", "Ünï", "名前", "𝒳", "٣", "a", "b"}
 var otherPieces = []string{" ", "  ", "\t", "\r\n", "\x01", "\x7f", " ", "😀", "🙂", "!", "-", "+", ",", "[", "]", "=", "1", "2.5",
-	" ", "﻿", "'", "`", "#", "$", "%", "€"}
+	" ", "\ufeff", "'", "`", "#", "$", "%", "€"}
 var identPieces = []string{"@foo", "@foo.bar", "@Foo.x", "@bar", "@bar.baz", "@contact.name", "@foo.", "@foo..x", "@foo.1", "@x@y.z",
 	"bob@nyaruka.com", "@_x", "@9", "@é", "@Ünï.b", "@名前", "@foo@@"}
 
@@ -537,13 +537,13 @@ func main() {
 		toks, p := scanReal(tpl, keys, true)
 		if p || len(toks) == 0 || toks[0].T != int(excellent.EXPRESSION) || toks[0].S != e {
 			cls := "scanner-parser-agree:expression-end"
-			if hasTrailingBackslashLiteralBeforeQuote(e) || strings.HasSuffix(e, `\"`) {
-				cls = "scanner-parser-agree:literal-ends-in-backslash"
+			if hasTrailingBackslashLiteralBeforeQuote(e) {
+				cls = "scanner-parser-agree:literal-ends-in-backslash-before-later-quote"
 			}
 			res.Fail(cls, map[string]any{"expression": e, "template": tpl}, fmt.Sprintf("parser accepts %q but the scanner's first token of %q is %v", e, tpl, toks))
 		}
 	}
-	for _, e := range []string{`"a\\"`, `"\\"`, `"a\\" & "b"`, `")"`, `"(" & ")"`, `("a")`, `"\")"`, `"\\\\"`, `foo & "\\"`} {
+	for _, e := range []string{`"a\\"`, `"\\"`, `"a\\" & "b"`, `"a\\" & "`, `")"`, `"(" & ")"`, `("a")`, `"\")"`, `"\\\\"`, `foo & "\\"`} {
 		o4(e, "")
 		o4(e, ` and "more" )`)
 	}
